@@ -159,17 +159,27 @@ pub fn check(c: &Case) -> Outcome {
         }
         Case::Arith { t, d_ns, u } => {
             let vars = vec![("t".to_string(), t.value()), ("d".to_string(), V::dur_ns(*d_ns as i128)), ("u".to_string(), u.value())];
-            for src in ["t + d - d == t", "(t + d) - t == d", "d + t == t + d", "t - d + d == t"] {
+            // "whenever t + d is representable; otherwise the operation is an error": an implementation may draw the
+            // line at chrono's range or at CEL's 0001..9999; outside 0001..9999 (UTC or local) either outcome is accepted
+            let in_years = |ns: i128| -> bool {
+                let secs = ns.div_euclid(1_000_000_000) as i64;
+                (1..=9999).contains(&fields(secs, 0, 0).year) && (1..=9999).contains(&fields(secs, 0, t.off).year)
+            };
+            let plus_ok = in_years(t.total_ns() + *d_ns as i128);
+            let minus_ok = in_years(t.total_ns() - *d_ns as i128);
+            for (src, representable) in [("t + d - d == t", plus_ok), ("(t + d) - t == d", plus_ok), ("d + t == t + d", plus_ok), ("t - d + d == t", minus_ok)] {
                 match sut::run_src(src, &vars) {
                     Ran::Done(R::Val(V::Bool(true))) => {}
+                    Ran::Done(R::Err(..)) if !representable => {}
                     o => return fail(format!("`{src}` with t = {} d = {} ns: expected true, observed {}", t.text(), d_ns, o.show())),
                 }
             }
-            // t + d is the instant shifted by exactly d, at the same offset
+            // t + d is the instant shifted by exactly d
             let want = t.total_ns() + *d_ns as i128;
             match sut::run_src("t + d", &vars) {
-                Ran::Done(R::Val(v @ V::Ts(_, _, o))) if v.ts_total_ns() == Some(want) && o == t.off => {}
-                o => return fail(format!("`t + d` with t = {} d = {} ns should be the instant {} ns at the same offset, observed {}", t.text(), d_ns, want, o.show())),
+                Ran::Done(R::Val(v @ V::Ts(..))) if v.ts_total_ns() == Some(want) => {}
+                Ran::Done(R::Err(..)) if !plus_ok => {}
+                o => return fail(format!("`t + d` with t = {} d = {} ns should be the instant {} ns, observed {}", t.text(), d_ns, want, o.show())),
             }
             let diff = t.total_ns() - u.total_ns();
             match sut::run_src("t - u", &vars) {
@@ -263,6 +273,41 @@ pub fn run(r: &mut Runner) {
             },
             check,
         );
+    }
+    {
+        // arithmetic whose operands and results sit on the edges of 0001..9999
+        let mut cases = vec![];
+        let edges = [
+            T { y: 9999, mo: 12, d: 31, h: 23, mi: 59, s: 59, nanos: 999_999_999, off: 0, digits: 3 },
+            T { y: 9999, mo: 12, d: 31, h: 23, mi: 59, s: 58, nanos: 500_000_000, off: 0, digits: 3 },
+            T { y: 9999, mo: 12, d: 31, h: 23, mi: 59, s: 59, nanos: 1, off: 3600, digits: 3 },
+            T { y: 9999, mo: 12, d: 30, h: 23, mi: 59, s: 59, nanos: 250_000_000, off: -43200, digits: 3 },
+            T { y: 1, mo: 1, d: 1, h: 0, mi: 0, s: 0, nanos: 0, off: 0, digits: 0 },
+            T { y: 1, mo: 1, d: 1, h: 0, mi: 0, s: 0, nanos: 1, off: 0, digits: 3 },
+            T { y: 1, mo: 1, d: 2, h: 0, mi: 0, s: 0, nanos: 999_000_000, off: 50400, digits: 3 },
+            T { y: 1970, mo: 1, d: 1, h: 0, mi: 0, s: 0, nanos: 0, off: 0, digits: 0 },
+            T { y: 1969, mo: 12, d: 31, h: 23, mi: 59, s: 59, nanos: 250_000_000, off: 0, digits: 3 },
+        ];
+        let ds: [i64; 13] = [0, 1, -1, 500_000_000, -500_000_000, 1_000_000_000, -1_000_000_000, 86_400_000_000_000, -86_400_000_000_000, 999_999_999, -999_999_999, 3_600_000_000_000, -3_600_000_000_000];
+        for t in &edges {
+            for d in ds {
+                for u in &edges {
+                    cases.push(Case::Arith { t: t.clone(), d_ns: d, u: u.clone() });
+                }
+            }
+        }
+        for a in &edges {
+            for b in &edges {
+                cases.push(Case::Order { a: a.clone(), other_off: 3600, b: b.clone() });
+                let mut b2 = a.clone();
+                b2.nanos = (a.nanos as i64 + 1).min(999_999_999) as u32;
+                cases.push(Case::Order { a: a.clone(), other_off: -7200, b: b2 });
+            }
+            cases.push(Case::Fields { t: a.clone(), from_text: true });
+            cases.push(Case::Fields { t: a.clone(), from_text: false });
+            cases.push(Case::RoundTrip { t: a.clone(), from_text: true });
+        }
+        r.sweep("range-edge-arithmetic-and-ordering", cases, check);
     }
     let n = r.tier.n(4_000, 300_000);
     r.random("random-accessors", 24, n, |u: &mut Chooser| Case::Fields { t: gen_t(u), from_text: u.flip() }, check);
